@@ -276,7 +276,9 @@ func (w *world) authClient(conn net.Conn, i int, registered bool) string {
 func (w *world) replayClient(conn net.Conn, i int) string {
 	n := w.auth[i]
 	nonce := harness.Bytes(fmt.Sprintf("c15-replay-nonce-%d", i), 32)
-	c := &harness.AuthClient{Request: &types.GenerateServerCertificatesRequest{CertificatePublicKeyPkix: n.K.Pkix, Nonce: nonce, NonceSignature: n.K.Sign(nonce)}, ExtraProtos: extras(i)}
+	// (the replayed request carries the node's genuinely signed state as well)
+	rst, _ := proto.Marshal(harness.Struct(clientState(i)))
+	c := &harness.AuthClient{Request: &types.GenerateServerCertificatesRequest{CertificatePublicKeyPkix: n.K.Pkix, Nonce: nonce, NonceSignature: n.K.Sign(nonce), ClientState: rst, ClientStateSignature: n.K.Sign(rst)}, ExtraProtos: extras(i)}
 	outsider := w.unk[i]
 	chain := [][]byte{harness.SelfSignedCertWithSKI(outsider, n.K.Pkix)}
 	tc := tls.Client(conn, &tls.Config{MinVersion: tls.VersionTLS13, InsecureSkipVerify: true, NextProtos: c.NextProtos(),
@@ -572,7 +574,7 @@ func scenarios(c *engine.Ctx) []scenario {
 	out = append(out, scenario{Clients: []string{kAuth, kAuth}, OptLen: 5, Spare: 1}, scenario{Clients: []string{kToken, kFetchUnknown}, OptLen: 5, Spare: 1})
 	// a listener that also serves the application's own TLS clients, and one whose base listener fails once
 	out = append(out, scenario{Clients: []string{kFetchUnknown, kBase}, OptLen: 1, Spare: 1}, scenario{Clients: []string{kAuthUnknown, kBase}, OptLen: 1, Spare: 1},
-		scenario{Clients: []string{kAuth, kBase}, OptLen: 1, Spare: 1},
+		scenario{Clients: []string{kAuth, kBase}, OptLen: 1, Spare: 1}, scenario{Clients: []string{kAuthReplay, kBase}, OptLen: 1, Spare: 1},
 		scenario{Clients: []string{kAuth, kAcceptErr}, OptLen: 1, Spare: 1}, scenario{Clients: []string{kFetchUnknown, kAcceptErr}, OptLen: 1, Spare: 1})
 	// with the random-source seam: a first poll runs to its end (whatever the
 	// listener keeps from one handshake for the next is in place), then two overlap
@@ -605,6 +607,12 @@ func scenarios(c *engine.Ctx) []scenario {
 
 func run(c *engine.Ctx, r *engine.Report) {
 	r.Need("explored", "solo:credentials", "solo:authenticated", "solo:rejected")
+	// One P: the managed threads run one at a time anyway, and per-P runtime
+	// state (sync.Pool's private slots) is then shared by all of them, so that
+	// what one handler leaves in a pool is what the next one finds - in every
+	// execution of a schedule, not only when the Go scheduler happens to keep
+	// both on the same P.
+	runtime.GOMAXPROCS(1)
 	w := newWorld(c.Seed)
 	for si, sc := range scenarios(c) {
 		// thorough: three preemptions for pairs on the three representative
